@@ -428,6 +428,66 @@ func c1profile6() []*c1pkg {
 	return pkgs
 }
 
+// --- profile 8: order of evaluation ------------------------------------------------------------------
+//
+// Every operand that can observe or change state is a call that takes the next value of a shared counter, so the Go
+// specification fixes the outcome (calls happen in lexical left-to-right order, operands of the targets before the
+// right-hand side, stores left to right afterwards): target kinds x assignment operators x right-hand sides, and all
+// pairs of target kinds in tuple assignments.
+func c1profile8() []*c1pkg {
+	decls := "import \"fmt\"\n\ntype S struct {\n\tn int\n\ta []int\n}\n\nfunc (s *S) Plus(k int) int {\n\treturn s.n*100 + k\n}\n\nvar cnt int\nvar gs []int\nvar gm map[int]int\nvar objs []*S\n\nfunc next() int {\n\tcnt++\n\treturn cnt\n}\n\nfunc obj() *S {\n\treturn objs[next()%4]\n}\n\nfunc sl() []int {\n\tnext()\n\treturn gs\n}\n\nfunc mp() map[int]int {\n\tnext()\n\treturn gm\n}\n\nfunc reset() {\n\tcnt = 0\n\tgs = []int{10, 20, 30, 40, 50, 60, 70, 80}\n\tgm = map[int]int{1: 100, 2: 200, 3: 300}\n\tobjs = []*S{&S{n: 1, a: []int{1, 2, 3, 4}}, &S{n: 2, a: []int{5, 6, 7, 8}}, &S{n: 3, a: []int{9, 10, 11, 12}}, &S{n: 4, a: []int{13, 14, 15, 16}}}\n}\n\nfunc dump(x int, y int) {\n\tfmt.Println(cnt, x, y, gs, len(gm))\n\tfor k := 1; k <= 14; k++ {\n\t\tif v, ok := gm[k]; ok {\n\t\t\tfmt.Println(k, v)\n\t\t}\n\t}\n\tfor _, o := range objs {\n\t\tfmt.Println(o.n, o.a)\n\t}\n}\n\n"
+	targets := []string{"gs[next()%8]", "sl()[next()%8]", "gm[next()]", "mp()[next()]", "obj().n", "obj().a[next()%4]", "objs[next()%4].n", "x", "gs[next()%8+x]", "objs[x].a[next()%4]"}
+	rhs := []string{"next()", "next() * next()", "obj().n + next()", "7", "obj().Plus(next())", "x + next()", "gs[next()%8] + gm[next()%3+1]"}
+	ops := []string{"=", "+=", "-=", "*="}
+	var pkgs []*c1pkg
+	p := &c1pkg{name: "po0000", decls: decls}
+	add := func(key, stmt string) {
+		if len(p.snippets) == 120 {
+			pkgs = append(pkgs, p)
+			p = &c1pkg{name: fmt.Sprintf("po%04d", len(pkgs)), decls: decls}
+		}
+		p.snippets = append(p.snippets, c02indent("reset()\nx, y := 0, 0\n"+stmt+"\ndump(x, y)", "\t")+"\n")
+		p.keys = append(p.keys, "order of evaluation: "+key)
+	}
+	for _, t := range targets {
+		for _, op := range ops {
+			for _, r := range rhs {
+				add(t+" "+op+" "+r, t+" "+op+" "+r)
+			}
+		}
+		add(t+"++", t+"++")
+		add(t+"--", t+"--")
+	}
+	pairs := [][2]string{{"next()", "next()"}, {"obj().n + next()", "7"}, {"obj().Plus(next())", "next()"}, {"x + 1", "next() * 10"}}
+	for _, ta := range targets {
+		for _, tb := range targets {
+			tb2 := tb // a second plain variable
+			if tb == "x" {
+				tb2 = "y"
+			} else if strings.HasSuffix(tb, "+x]") {
+				tb2 = strings.TrimSuffix(tb, "+x]") + "+y]"
+			} else if strings.HasPrefix(tb, "objs[x]") {
+				tb2 = "objs[y]" + strings.TrimPrefix(tb, "objs[x]")
+			}
+			for _, pr := range pairs {
+				stmt := ta + ", " + tb2 + " = " + pr[0] + ", " + pr[1]
+				add(stmt, stmt)
+			}
+		}
+	}
+	// method calls: receiver, then arguments left to right; nested
+	for _, recv := range []string{"obj()", "objs[next()%4]", "objs[x+1]"} {
+		for _, arg := range []string{"next()", "obj().n", "obj().Plus(next())", "gs[next()%8]"} {
+			stmt := "y = " + recv + ".Plus(" + arg + ")"
+			add(stmt, stmt)
+			stmt = "gs[next()%8] += " + recv + ".Plus(" + arg + ")"
+			add(stmt, stmt)
+		}
+	}
+	pkgs = append(pkgs, p)
+	return pkgs
+}
+
 // --- profile 7: run-time panics ---------------------------------------------------------------------
 
 func c1profile7() []*c1pkg {
@@ -489,7 +549,7 @@ func c1goatFiles(pkg string, files map[string]string) map[string]string {
 
 func c01run(r *report.Run) {
 	thorough := r.Tier == "thorough"
-	r.Rule("profiles: (1) 8 lvalue kinds x 13 assignment operators x {int, byte, float64, string} x block contexts x right-hand-side kinds; (2) 58 statement forms x 8 block contexts x inner contexts (nesting depth 2); (3) element types x container shapes x operations, named types, nil comparisons, constants, conversions; (4) the C09 call configurations; (5) every bundled math/strings/strconv/errors/fmt function x boundary argument pools; (6) multi-package layouts (exported const/var/func/type/method, aliases, packages split over files, chain, diamond, interfaces across packages); (7) 8 run-time fault kinds x 5 positions; (2) control-flow and scoping corpora of C06/C08 at <=3 nodes, slice histories of C11, struct programs of C12, wide-frame programs (statement groups behind 120..300 locals); every program compiled and run by the Go toolchain and by goatlang from identical source text; non-trivial = every program (all distinct)")
+	r.Rule("profiles: (1) 8 lvalue kinds x 13 assignment operators x {int, byte, float64, string} x block contexts x right-hand-side kinds; (2) 58 statement forms x 8 block contexts x inner contexts (nesting depth 2); (3) element types x container shapes x operations, named types, nil comparisons, constants, conversions; (4) the C09 call configurations; (5) every bundled math/strings/strconv/errors/fmt function x boundary argument pools; (6) multi-package layouts (exported const/var/func/type/method, aliases, packages split over files, chain, diamond, interfaces across packages); (7) 8 run-time fault kinds x 5 positions; (8) order of evaluation: 10 target kinds x {=, +=, -=, *=, ++, --} x 7 right-hand sides, all pairs of target kinds x 4 value pairs in tuple assignments, 3 receivers x 4 arguments of method calls - every operand a call on a shared counter, so that the specification fixes the outcome; (2) control-flow and scoping corpora of C06/C08 at <=3 nodes, slice histories of C11, struct programs of C12, wide-frame programs (statement groups behind 120..300 locals); every program compiled and run by the Go toolchain and by goatlang from identical source text; non-trivial = every program (all distinct)")
 	r.Assume("the supported subset is the grammar of DESIGN.md §4; int values are kept inside the int32 range so that Go's 64-bit int and goatlang's 32-bit int agree", "one Go toolchain (the installed one); printed multi-entry maps never occur in generated programs")
 	cache := oracle.OpenCache("c01")
 	defer cache.Save()
@@ -500,6 +560,7 @@ func c01run(r *report.Run) {
 	pkgs = append(pkgs, c1profile5()...)
 	pkgs = append(pkgs, c1profile6()...)
 	pkgs = append(pkgs, c1profile7()...)
+	pkgs = append(pkgs, c1profile8()...)
 	r.Set("snippet_packages", len(pkgs))
 	// Go side
 	var progs []*oracle.Prog
